@@ -22,7 +22,7 @@ pub const ASSUMPTIONS: &[&str] = &[
 ];
 
 pub fn cfg() -> GenCfg {
-    GenCfg { names: 3, self_dep_bias: 5, allow_dups_in_file: true, ..GenCfg::default() }
+    GenCfg { names: 3, self_dep_bias: 5, allow_dups_in_file: true, oneline_fixtures: true, ..GenCfg::default() }
 }
 
 #[derive(Clone, Debug, serde::Serialize, serde::Deserialize)]
@@ -213,7 +213,7 @@ pub fn run(ctx: &Ctx) {
 }
 
 pub fn lsp_cfg() -> GenCfg {
-    GenCfg { names: 2, self_dep_bias: 6, max_depth: 3, max_items: 3, allow_dups_in_file: false, noise: false, ..GenCfg::default() }
+    GenCfg { names: 2, self_dep_bias: 6, max_depth: 3, max_items: 3, allow_dups_in_file: false, noise: false, oneline_fixtures: true, ..GenCfg::default() }
 }
 
 pub fn judge(ctx: &Ctx, sub: &str, case: &Value) -> Option<Outcome> {
